@@ -54,6 +54,8 @@ pub fn gen(seed: u64, _tier: Tier) -> ScenarioSpec {
     let mut spec = gen::base_spec(P, "S1", seed, rec);
     spec.compression = *rng.pick(&[Compression::None, Compression::Lz4, Compression::Zstd]);
     spec.sink = gen::gen_sink(&mut rng, false);
+    // the game may come from a hashing read (it then carries a hash string); the guard must not care
+    spec.opts.compute_hash = rng.chance(1, 2);
     spec.knobs.insert("prelude".into(), gen_prelude(&mut rng, &[1, 2, 4, 5], 6));
     spec
 }
@@ -72,7 +74,8 @@ pub fn run(spec: &ScenarioSpec, ctx: &mut Ctx) -> Result<(), Violation> {
     ctx.probe_if(!spec.recorder.extras.trailing.is_empty() && !newer, "longer Game Start/End block at or below the ceiling");
     ctx.shape("trailing", spec.recorder.extras.trailing.len() as u64);
     prelude(spec.knob("prelude"), spec.seed, &m, ctx);
-    let Some(game) = s1_read(P, spec, &m, ctx, false)? else { return Ok(()) };
+    ctx.shape("hash", spec.opts.compute_hash as u64);
+    let Some(game) = s1_read(P, spec, &m, ctx, true)? else { return Ok(()) };
     let w1 = write_slp(&game, &spec.sink);
     note_write(ctx, &w1);
     match (&w1.res, newer) {
